@@ -386,7 +386,7 @@ func (m *c35Model) canon() string {
 
 var c35DBCtr atomic.Int64
 
-func c35Replay(t *testing.T, w *c35World, hist []c35Ev) (canon string, viol *mc.Viol) {
+func c35Replay(t *testing.T, r *mc.Run, w *c35World, hist []c35Ev) (canon string, viol *mc.Viol) {
 	fail := func(key string, detail any) {
 		if viol == nil {
 			viol = &mc.Viol{Key: key, Detail: detail}
@@ -457,6 +457,9 @@ func c35Replay(t *testing.T, w *c35World, hist []c35Ev) (canon string, viol *mc.
 					}
 					switch {
 					case w.starts[id] > m.hours: // validity starts in the future
+						if step == len(hist)-1 {
+							r.Outcome("load:future-trc-ignored")
+						}
 						if loaded || !ignored {
 							fail("load:future-trc-not-ignored", where(map[string]any{"trc": id.String(), "starts_h": w.starts[id]}))
 						}
@@ -469,6 +472,9 @@ func c35Replay(t *testing.T, w *c35World, hist []c35Ev) (canon string, viol *mc.
 							fail("load:valid-trc-not-loaded", where(map[string]any{"trc": id.String(), "ignored": fmt.Sprint(res.Ignored[f])}))
 						}
 						m.stored[id] = true
+						if step == len(hist)-1 {
+							r.Outcome("load:trc-loaded")
+						}
 					}
 				}
 			case c35Notify:
@@ -499,6 +505,20 @@ func c35Replay(t *testing.T, w *c35World, hist []c35Ev) (canon string, viol *mc.
 					return
 				}
 				wantErr, wantFetches := m.notify(id, ev.faultAt)
+				if step == len(hist)-1 {
+					switch {
+					case !ok:
+						r.Outcome("notify:empty-store")
+					case len(wantFetches) == 0 && wantErr:
+						r.Outcome("notify:base-mismatch")
+					case len(wantFetches) == 0:
+						r.Outcome("notify:not-newer")
+					case !wantErr:
+						r.Outcome(fmt.Sprintf("notify:advanced-by-%d", len(wantFetches)))
+					default:
+						r.Outcome(fmt.Sprintf("notify:stopped-after-%d-of-%d", len(wantFetches)-1, ev.delta))
+					}
+				}
 				if fmt.Sprint(f.calls) != fmt.Sprint(wantFetches) {
 					fail("notify:fetch-sequence:"+ev.class(), where(map[string]any{"notified": id.String(), "fetched": fmt.Sprint(f.calls), "expected": fmt.Sprint(wantFetches)}))
 				}
@@ -533,14 +553,14 @@ func TestC35(t *testing.T) {
 		t.Fatalf("HARNESS-ERROR building the TRC world: %v", err)
 	}
 	menu := c35Menu()
-	depth := mc.Pick(3, 5)
+	depth := mc.Pick(4, 6)
 	r.Rule = fmt.Sprintf("breadth-first search over event histories up to length %d from the empty store; %d events: NotifyTRC with serial "+
 		"latest-1/latest/+1/+2/+3 (same base; other base with 0/+1/+2), for +k every position 1..k of a faulty fetch x {fetch error, bad vote "+
 		"signature, properly signed non-successor, TRC with another ID}; LoadTRCs from 3 directories (S1 | S2 + future S4 | other-base B3-S3 + future S5); "+
 		"Advance(12h) at most twice. A state is the sorted list of stored TRCs (legit / corrupted variant by bytes) plus the clock; distinct key = state; "+
 		"each transition is one full replay on a fresh sqlite DB compared step by step with the reference model", depth, len(menu))
 	st := mc.BFS(mc.Space[c35Ev]{
-		Replay: func(h []c35Ev) (string, *mc.Viol) { return c35Replay(t, w, h) },
+		Replay: func(h []c35Ev) (string, *mc.Viol) { return c35Replay(t, r, w, h) },
 		Events: func(h []c35Ev) []c35Ev {
 			adv := 0
 			for _, e := range h {
@@ -563,13 +583,6 @@ func TestC35(t *testing.T) {
 	r.Extra["depth_reached"] = st.Depth
 	r.Extra["events"] = len(menu)
 	r.Extra["merge_checks"] = st.MergeChecks
-	r.Outcome("store-equals-model")
-	// outcome classes: which kinds of steps occurred is a property of the menu x reachable states; count them from a
-	// model-only walk of the explored depth is not needed - the BFS compares every transition. Record the classes of
-	// events for the vacuity check.
-	for _, e := range menu {
-		r.Outcome("event:" + strings.SplitN(e.class(), ":", 2)[0])
-	}
 	r.Assumptions = []string{
 		"'latest' is the highest (base, serial) pair stored for the ISD",
 		"the fetcher is a script; like the real gRPC fetcher it may return anything, including a TRC with another ID",
